@@ -163,8 +163,14 @@ class Expansion:
         cur = self.items
         node = None
         for seg in path:
+            which = 0
+            mm = re.search(r'\s#(\d+)$', seg)          # `impl Fe #2`: the second item of that name in the module
+            if mm:
+                which = int(mm.group(1)) - 1
+                seg = seg[:mm.start()]
             seg_n = norm_seg(seg)
             nxt = [x for x in cur if x.name is not None and norm_seg(x.name) == seg_n and x.kind != 'use']
+            nxt = nxt[which:]
             if not nxt:
                 have = sorted(set(x.name for x in cur if x.name and x.kind != 'use'))
                 raise LostAnchor("lost anchor: segment %r of %r not found (have: %s)" % (seg, " / ".join(path), have[:60]))
@@ -430,7 +436,7 @@ def rule_x4(text, log):
 def rule_x9(text, log):
     """binary operators on reference operands (&a op &b, x op &b) -> method call form"""
     ops = {'+': 'add', '-': 'sub', '*': 'mul'}
-    pat = re.compile(r'(?<![A-Za-z0-9_)\]])(&?[a-z_][A-Za-z0-9_]*) ([-+*]) (&[a-z_][A-Za-z0-9_]*)\b(?!\s*[.(\[])')
+    pat = re.compile(r'(?<![A-Za-z0-9_)\]])(&?[a-z_][A-Za-z0-9_]*) ([-+*]) (&[a-z_][A-Za-z0-9_]*|self)\b(?!\s*[.(\[])')
 
     def rep(mm):
         a, op, b = mm.group(1), mm.group(2), mm.group(3)
@@ -472,6 +478,25 @@ def rule_x12(text, log):
         log.append({'rule': 'X12', 'before': mm.group(0), 'after': new})
         return new
     return re.sub(r'(?<![A-Za-z0-9_])b"((?:\\.|[^"\\])*)"', rep, text)
+
+
+def rule_x14(text, log):
+    """`const NAME: uN = <expression of integer literals and + - * << >> | & ^ ( )>;` -> the literal it evaluates to.  Verus
+    raises an overflow obligation on a shift inside a const initialiser and offers no place to discharge it; rustc's const
+    evaluation gives exactly this value (the folded literal is re-derived from the source on every run)"""
+    mm = re.search(r'(const\s+[A-Za-z_][A-Za-z0-9_]*\s*:\s*(u8|u16|u32|u64|u128|usize)\s*=\s*)([^;]+);', text)
+    if not mm:
+        return text
+    expr = mm.group(3)
+    if not re.fullmatch(r'[0-9a-fA-Fx_\s()+\-*<>|&^]+', expr) or re.fullmatch(r'\s*[0-9a-fA-Fx_]+\s*', expr):
+        return text
+    bits = {'u8': 8, 'u16': 16, 'u32': 32, 'u64': 64, 'u128': 128, 'usize': 64}[mm.group(2)]
+    val = eval(expr.replace('_', ''), {'__builtins__': {}})
+    if val < 0 or val >= (1 << bits):
+        return text
+    new = mm.group(1) + hex(val) + ';'
+    log.append({'rule': 'X14', 'before': norm(mm.group(0)), 'after': norm(new)})
+    return text[:mm.start()] + new + text[mm.end():]
 
 
 def rule_x13(text, log):
@@ -533,6 +558,15 @@ def enclosing_statement(text, idx):
 def resolve_anchor(text, anchor):
     m = mask(text)
     a = anchor.split()
+    scope = None
+    if a[0] == 'in-loop':
+        # `in-loop <k> let|assign ...`: the statement anchors below, relative to the body of the k-th loop
+        ls = loops(text)
+        k = int(a[1])
+        if k > len(ls):
+            raise LostAnchor("lost anchor: loop %d (function has %d loops)" % (k, len(ls)))
+        scope = ls[k - 1][1]
+        a = a[2:]
     if a[0] == 'fn-start':
         return body_open(text) + 1
     if a[0] == 'fn-end':
@@ -575,11 +609,13 @@ def resolve_anchor(text, anchor):
     if a[0] in ('let', 'assign'):
         # def anchors keyed by variable: `let <name> before|after` = the top-level `let [mut] <name>` statement;
         # `assign <k> <lhs> before|after` = k-th top-level statement that (compound-)assigns <lhs>
-        st = top_statements(text)
+        st = top_statements(text, scope)
         if a[0] == 'let':
-            name, where = a[1], a[2]
+            if a[1].isdigit():
+                k, name, where = int(a[1]), a[2], a[3]
+            else:
+                k, name, where = 1, a[1], a[2]
             pat = re.compile(r'let\s+(?:mut\s+)?' + re.escape(name) + r'\b')
-            k = 1
         else:
             k, name, where = int(a[1]), a[2], a[3]
             pat = re.compile(re.escape(name) + r'\s*(?:[-+*/%^|&]|<<|>>)?=(?!=)')
@@ -715,6 +751,8 @@ def apply_rules(text, flags, log, path):
         text = rule_x12(text, mylog)
     if 'x13' in flags:
         text = rule_x13(text, mylog)
+    if 'x14' in flags:
+        text = rule_x14(text, mylog)
     if 'x10' in flags:
         v = flags['x10']
         text = rule_x10(text, mylog, v if isinstance(v, str) else None)
